@@ -70,9 +70,9 @@ Section Proc.
     assert (Eall : all_g (pre ++ [x]) = all_g pre ++ match x with SEnq b => gs b | _ => [] end).
     { unfold all_g. rewrite flat_map_app. simpl. rewrite app_nil_r. reflexivity. }
     assert (Ndpre : NoDup (all_g pre)) by (rewrite Eall in Nd; eapply NoDup_app_l; eauto).
-    destruct x as [b0 | bid pos | | ]; simpl.
+    destruct x as [b0 | bid pos | | | | ]; simpl.
     - (* SEnq *)
-      unfold Processor.enqueue. destruct (stopped s); [constructor; auto|].
+      unfold Processor.enqueue. destruct (quitf s || stopped s); [constructor; auto|].
       destruct ((cap_n <? held_n s + batch_num b0) || (cap_s <? held_s s + batch_size b0)).
       + constructor; simpl; auto.
       + constructor; simpl.
@@ -176,9 +176,9 @@ Section Proc.
                 apply Iqin. right; exact Hb.
     - (* SStop *)
       unfold Processor.stop. destruct (stopped s); [constructor; auto|].
-      set (s0 := match queue s with bs :: _ => pemit s (PAborted (b_id (bs_batch bs))) | [] => s end).
+      set (s0 := match queue s with bs :: _ => if quitf s then s else pemit s (PAborted (b_id (bs_batch bs))) | [] => s end).
       assert (E0 : Hd s0 = Hd s /\ queue s0 = queue s).
-      { unfold s0. destruct (queue s) eqn:Q; [auto|]. split; [reflexivity | simpl; exact Q]. }
+      { unfold s0. destruct (queue s) eqn:Q; [auto|]. destruct (quitf s); [auto|]. split; [reflexivity | simpl; exact Q]. }
       destruct E0 as [E0 Q0].
       match goal with |- context [fold_left apply_out ?l ?sx] =>
         destruct (fold_apply_log l sx) as [new [L F]]; pose proof (frame_fold_apply l sx) as Fr end.
@@ -192,5 +192,13 @@ Section Proc.
       constructor; rewrite EQ.
       + exact Uarr.
       + intros bs Hb. eapply un_ok_same; [exact EH | | | | |apply Uun; exact Hb]; reflexivity.
+    - (* SQuit *)
+      unfold quit. destruct (stopped s); constructor; auto.
+    - (* SAbort *)
+      unfold abort. destruct (stopped s || negb (quitf s)); [constructor; auto|].
+      destruct (queue s) as [|bs rest] eqn:Q; [constructor; rewrite Q; intros ? []|].
+      constructor; simpl.
+      + intros bs' Hb. apply Uarr. right; exact Hb.
+      + intros bs' Hb. eapply un_ok_same; [| | | | |apply Uun; right; exact Hb]; reflexivity.
   Qed.
 End Proc.
